@@ -85,10 +85,47 @@ pub fn run(ctx: &Ctx) -> Report {
     rep.floor("handshake_retransmissions_forced", 100);
     rep.floor("snapshots_checked", 500);
     rep.floor("family:mrp", 200);
+    rep.floor("exchange_id_space_wrapped", 2);
     rep.floor("family:case", 200);
     rep.floor("family:admin", 200);
 
     let shard_seed = ctx.shard_seed();
+
+    // (d) exchange identifiers over more allocations than the identifier space holds
+    if ctx.replay.as_ref().map(|r| r["family"].as_str() == Some("wrap")).unwrap_or(ctx.replay.is_none()) {
+        let cases: u64 = if ctx.replay.is_some() { 1 } else if ctx.thorough { 4 } else if ctx.shard < 4 { 1 } else { 0 };
+        for k in 0..cases {
+            let (seed, hold) = match &ctx.replay {
+                Some(r) => (
+                    r["seed"].as_str().and_then(|s| s.parse().ok()).unwrap_or(0),
+                    r["hold"].as_u64().unwrap_or(1) as usize,
+                ),
+                None => (subseed(shard_seed, &[0xD0, k]), 1 + ((ctx.shard + k) % 2) as usize),
+            };
+            let o = crate::mon::c15_wrap::run_wrap_case(seed, hold);
+            rep.evaluations += 1;
+            rep.count("family:wrap");
+            rep.count_n("exchange_ids_allocated", o.allocations);
+            rep.count_n("exchange_table_snapshots_near_wrap", o.snapshots);
+            if o.allocations > 65_536 {
+                rep.count("exchange_id_space_wrapped");
+            }
+            if let Some(e) = &o.error {
+                rep.inconclusive(&format!("wrap-case:{}", e.split(' ').next().unwrap_or("")));
+            }
+            for v in &o.violations {
+                rep.violation(
+                    "identifier-uniqueness",
+                    "C15/ids/exchange-id-not-unique/after-identifier-wrap",
+                    v.clone(),
+                    json!({"check":"C15","family":"wrap","seed": seed.to_string(), "hold": hold}),
+                );
+            }
+        }
+        if ctx.replay.is_some() {
+            return rep;
+        }
+    }
     let replay_idx = ctx.replay.as_ref().map(|r| {
         (
             r["shard_seed"].as_str().and_then(|s| s.parse::<u64>().ok()).unwrap_or(0),
